@@ -699,6 +699,14 @@ func execC30(c *simkit.Ctx) bool {
 			if key == "" {
 				break
 			}
+			for ep := r.minLo(); ep < r.cur(); ep++ {
+				if d := r.diskOfEpoch(ep); d != nil {
+					if _, ok := d.RawGet([]byte(key)); ok {
+						c.Probe("remove_of_key_held_by_older_active_epoch")
+						break
+					}
+				}
+			}
 			err := r.st.Remove([]byte(key))
 			fired := disarm()
 			for _, m := range r.must {
